@@ -47,6 +47,7 @@ class Engine:
         self.stdout = None
         self.sched = None
         self.h = {}
+        self.alloc_limit = None         # per-path harness setting (C14): must not leak into the next path / instance
 
     def _check(self, *extra):
         self.stats["queries"] += 1
